@@ -188,6 +188,9 @@ def drives(quick):
     # a mesh whose pure-Neumann matrix for mu is EXACTLY singular (SuperLU refuses it; repaired as 86941f9: one site is
     # grounded): the balance holds in every cell, the grounded one included
     d += [dict(name="exactly_singular_neumann_matrix", dev="union", dev_kw=dict(smooth=5), cur=None, A=0.6, opts=dict(dt_init=5e-3, adaptive=False))]
+    # the device object of the earlier drives meshed again, finer (Triangle inserts new boundary vertices, so sites and
+    # boundary edges are renumbered): terminal bookkeeping must be that of the mesh in use
+    d += [dict(name="2term_after_remesh", dev="bar", remesh=0.5, cur={"source": 4.0, "drain": -4.0}, A=0.3, opts=dict(dt_init=5e-3, adaptive=False))]
     d += [dict(name="3term_same_solver_solved_twice", dev="bar3", twice=True, cur={"source": 3.0, "drain": -1.0, "top": -2.0}, A=0.2, opts=dict(dt_init=1e-2, adaptive=False))]
     # "converted from the user's units": prefixes of the current unit and of the device's length unit that do not cancel
     d += [
@@ -225,6 +228,15 @@ def run_level(ctx, stop_first=False):
         else:
             ctx.count("solves_on_a_reused_device")
         dev = devs[dkey]
+        if dr.get("remesh"):
+            dev.terminal_info()  # (the device has been used: whatever it remembers of the old mesh is in place)
+            for fac in (1.0, 0.93, 1.07, 0.85):
+                try:
+                    dev.make_mesh(max_edge_length=dr["remesh"] * dev.layer.coherence_length * 2 * fac)
+                    break
+                except ValueError:
+                    continue
+            ctx.count("drives_after_remeshing_a_used_device")
         if dr["name"] == "exactly_singular_neumann_matrix":
             import scipy.sparse.linalg as spla
             from tdgl.finite_volume.operators import build_laplacian
